@@ -20,7 +20,7 @@ PROPS = {
         "level": "proof",
         "harness": ["purediff", "gwrun"],
         "stages": [("pure", stage_pure, {"suites": ["pattern", "lcs", "ressub"], "n_quick": 6000, "n_thorough": 150000}),
-                   ("gw", stage_gw, {"profiles": [("reset", 1000, 6000)]})],
+                   ("gw", stage_gw, {"profiles": [("reset", 800, 6000), ("accchurn", 300, 2000)]})],
         "rule": "patterns/names over a token alphabet with wildcards, invalid tokens and byte mutations (names derived from the pattern "
                 "so matches are frequent); all pairs of collections up to length 3 over 2 value classes plus random edit-distance pairs "
                 "up to length 10 over <=5 classes of all four value kinds; direct-drive op sequences (events, reset start/answers incl. "
@@ -61,13 +61,16 @@ PROPS = {
     "C19": {
         "coq": ["Props/C19.v"],
         "level": "proof",
-        "harness": ["purediff"],
-        "stages": [("pure", stage_pure, {"suites": ["throttle"], "n_quick": 3000, "n_thorough": 40000})],
+        "harness": ["purediff", "gwrun"],
+        "stages": [("pure", stage_pure, {"suites": ["throttle"], "n_quick": 3000, "n_thorough": 40000}),
+                   ("gw", stage_gw, {"profiles": [("scthr1", 400, 3000), ("scthr2", 300, 2000), ("thr1", 300, 3000), ("thr2", 200, 2000)], "monitor_props": ("C19", "C06", "C12")})],
         "rule": "random Add/Done sequences on the real rescache.Throttle for limits 1..4 (Done mostly within the call contract, 8% outside "
-                "it to exercise the panic branch); observed: which starters ran after each call; non-trivial = more than 2 calls",
+                "it to exercise the panic branch); observed: which starters ran after each call, checked against min(added, done+limit) and Add order; "
+                "histories of the real gateway with resetThrottle = referenceThrottle = 1 and 2: system resets over reference graphs with re-access, "
+                "denials and disconnects while throttled requests wait; non-trivial = more than 2 calls / more than 4 frames",
         "assumptions": ["goroutine scheduling of `go cb()` is observed with a bounded wait, not modelled"],
         "technique": "Coq proof (bound, FIFO progress, no panic under the call contract, all op sequences) + differential correspondence of the real Throttle with the extracted step function",
-        "level_text": "Unbounded invariant proof on the throttle machine tied to the code by op-sequence differential; the system-level bound is checked on implementation traces (gwrun)",
+        "level_text": "Unbounded invariant proof on the throttle machine tied to the code by op-sequence differential; at system level the Coq monitor checks on scheduled traces with resetThrottle = 1 and 2 that the re-fetches of one system reset never exceed the limit and that no governed request (re-fetch, re-access) is left unsent at quiescence",
         "level_note": "trusted: Coq kernel, extraction, Go harness timing (2 s wait for a released starter)",
     },
     "C01": {
